@@ -110,6 +110,7 @@ def m_C01(tier):
     cfgs += twin_configs(tier)
     cfgs += rec_configs(tier)
     cfgs += longuse_configs(tier)
+    cfgs += rebuilt_configs(tier, 'C01')
     return cfgs
 
 
@@ -186,6 +187,7 @@ def m_C05(tier):
                         cfgs.append(C(mod, alg, 1, purge, 'str', b, 'seeded_archive' if not b.startswith('direct') else 'empty',
                                       nargs=2, spellings=1))
     cfgs += longuse_configs(tier, deep=True)
+    cfgs += rebuilt_configs(tier, 'C05')
     return cfgs
 
 
@@ -198,8 +200,17 @@ def m_C06(tier):
                     cfgs.append(C(mod, alg, ms, False, 'default', backend, init,
                                   nargs=min(4, ms + 2) if tier == 'quick' else min(5, ms + 2), spellings=1))
     cfgs += narrow_configs(tier)
+    # purge=True with the archive switched off is "without purge" too: the policy branch runs on bookkeeping that an
+    # earlier whole-cache purge has been through
+    for mod in MODULES:
+        for alg in BOUNDED:
+            for ms in ((2,) if tier == 'quick' else (1, 2, 3)):
+                cfgs.append(C(mod, alg, ms, True, 'default', 'dict', nargs=ms + 2, spellings=0,
+                              narrow=[['arch', False], ['arch', True]], depth=7 if tier == 'quick' else 8,
+                              states=2500 if tier == 'quick' else 30000))
     cfgs += [c for c in longuse_configs(tier, deep=True) if c['longuse'] == 'cycles']
     cfgs += scale_configs(tier)
+    cfgs += rebuilt_configs(tier, 'C06')
     return cfgs
 
 
@@ -251,6 +262,24 @@ LONGUSE_PROBES = {
 }
 
 
+def rebuilt_configs(tier, prop):
+    """the decorator object is rebuilt from itself (copy.copy, or a dill round trip where nothing is shared with the
+    harness) before it is applied: maxsize however it was passed, purge, keymap, ignore and tolerance must come through"""
+    cfgs = []
+    lim = dict(depth=4, states=400) if tier == 'quick' else dict(depth=5, states=4000)
+    for mod in MODULES:
+        for alg in ALL:
+            ms = None if alg in ('no', 'inf') else 1
+            if prop in ('C05', 'C07', 'C02'):
+                cfgs.append(C(mod, alg, ms, alg in BOUNDED, 'default', 'dict', maxsize_pos=alg in BOUNDED, deco_via='copy', nargs=2, spellings=1, **lim))
+            if prop in ('C05', 'C06', 'C15') and alg in BOUNDED:
+                cfgs.append(C(mod, alg, 2, False, 'default', 'none', maxsize_pos=True, deco_via='pickle', **lim))
+            if prop in ('C01', 'C18'):
+                cfgs.append(C(mod, alg, ms, False, 'str', 'none', nargs=3, spellings=1, args='float', tol=1, deco_via='pickle', **lim))
+                cfgs.append(C(mod, alg, ms, False, 'default' if mod == 'std' else 'str', 'none', ignore='y', deco_via='copy', **lim))
+    return cfgs
+
+
 def scale_configs(tier):
     """code paths that only run for larger parameters: maxsize 30 (LFU then evicts maxsize // 10 = 3 entries at a time),
     reached with a macro event that fills the cache"""
@@ -293,6 +322,7 @@ def m_C02(tier):
                           narrow=[['arch', False], ['arch', True], ['newarch'], ['dump']], depth=7 if tier == 'quick' else 8,
                           states=3000 if tier == 'quick' else 20000))
     cfgs += longuse_configs(tier, backends=('dict',), deep=True)
+    cfgs += rebuilt_configs(tier, 'C02')
     return cfgs
 
 
@@ -316,6 +346,7 @@ def m_C07(tier):
     # larger maxsize with an archive attached (LFU evicts maxsize // 10 entries at a time there)
     cfgs += [dict(c, states=150 if tier == 'quick' else 3000) for c in scale_configs('thorough')
              if c['backend'] == 'dict' and (tier == 'thorough' or c['alg'] == 'lfu')]
+    cfgs += rebuilt_configs(tier, 'C07')
     return cfgs
 
 
@@ -344,6 +375,7 @@ def m_C15(tier):
                 cfgs.append(C('safe', alg, None if alg in ('no', 'inf') else 1, False, km, backend, init, nargs=2, spellings=1, unkeyable=True))
     cfgs += twin_configs(tier)
     cfgs += longuse_configs(tier)
+    cfgs += rebuilt_configs(tier, 'C15')
     return cfgs
 
 
@@ -402,6 +434,7 @@ def m_C18(tier):
                 for b, km in (('file', 'str'), ('dir', 'md5'), ('sql', 'pickle'), ('direct:dict', 'default')):
                     cfgs.append(C(mod, alg, None if alg in ('no', 'inf') else 1, False, km, b, nargs=2, spellings=1))
     cfgs += longuse_configs(tier)
+    cfgs += rebuilt_configs(tier, 'C18')
     return cfgs
 
 
